@@ -23,9 +23,11 @@ Q = lambda n: f'.{P}.{n}'
 ARITIES = {'uu': (False, False), 'us': (False, True), 'su': (True, False), 'ss': (True, True)}
 KIND = {'uu': 'unary_unary', 'us': 'unary_stream', 'su': 'stream_unary', 'ss': 'stream_stream'}
 REQ_LOCS = {'same': Q('LocalReq'), 'other_file': Q('OtherReq'), 'dep_installed': '.google.iam.v1.GetIamPolicyRequest',
-            'dep_synth': '.acme.other.v1.PriceRequest', 'empty': EMPTY}
+            'dep_synth': '.acme.other.v1.PriceRequest', 'empty': EMPTY,
+            # a dependency type whose module name is a reserved word (any_pb2 is imported under an alias-less name all the same)
+            'dep_reserved_module': '.google.protobuf.Any'}
 RESP_LOCS = {'same': Q('LocalResp'), 'other_file': Q('OtherResp'), 'dep_installed': '.google.iam.v1.Policy',
-             'dep_synth': '.acme.other.v1.Money', 'empty': EMPTY, 'operation': OPERATION,
+             'dep_synth': '.acme.other.v1.Money', 'empty': EMPTY, 'operation': OPERATION, 'dep_reserved_module': '.google.protobuf.Any',
              # API-defined messages that merely share the short name of a special well-known type
              'local_empty': Q('Empty'), 'local_operation': Q('Operation')}
 KEYWORD_RPCS = ['Import', 'Global', 'Class', 'From', 'Return', 'Pass', 'Lambda', 'Yield', 'Del', 'Assert', 'Await',
@@ -200,7 +202,9 @@ def run(ctx):
     ppjob, ppcells = make_pp_job(seed=ctx.seed)
     ctx.log(f'{len(cells)} method cells in one library, {len(ppcells)} in a library over a proto-plus dependency package')
     # a sample of the cells once more with client logging switched on
-    dcells = [dict(c, id='debug-logging/' + c['id']) for c in cells[::5]]
+    # (cells over google.protobuf.Any are left out: rendering an Any of a type unknown to the client's pool for the log record
+    # raises in protobuf's JSON printer -- client logging is not part of the statement)
+    dcells = [dict(c, id='debug-logging/' + c['id']) for c in [c for c in cells if 'dep_reserved_module' not in c['id']][::5]]
     djob = dict(job, id='c03-debug-logging', probe_args=dict(job['probe_args'], cells=dcells, debug_logging=True))
     iso = make_isolated_jobs(seed=ctx.seed)
     results = engine.run_jobs([job, ppjob, djob] + [j for j, _ in iso])
